@@ -133,6 +133,9 @@ deriving Repr, Inhabited
 structure State where
   /-- `Config.onoff.collapsed_forwarding` (and `collapsed_forwarding_access` allows) -/
   cf : Bool
+  /-- source variant (`SquidModel/Gen/CollapseFlags.lean`): `HttpStateData::reusableReply` tests `RELEASE_REQUEST` before it
+  looks at the reply (true: a released entry is `doNotCacheButShare` whatever the reply says) or after (false: `reuseNot` wins) -/
+  relFirst : Bool
   entries : Nat → Option Entry
   clients : Nat → Option Client
   /-- `store_table` under the public key -/
@@ -140,8 +143,8 @@ structure State where
   nextE : Nat
   nextC : Nat
 
-def State.init (cf : Bool) : State :=
-  { cf := cf, entries := fun _ => none, clients := fun _ => none, pub := none, nextE := 0, nextC := 0 }
+def State.init (cf : Bool) (relFirst : Bool := true) : State :=
+  { cf := cf, relFirst := relFirst, entries := fun _ => none, clients := fun _ => none, pub := none, nextE := 0, nextC := 0 }
 
 def setE (s : State) (e : Nat) (ent : Entry) : State :=
   { s with entries := fun x => if x = e then some ent else s.entries x }
@@ -284,6 +287,12 @@ def applyReuse (s : State) (e : Nat) (dec : Reuse) : State :=
     let r := makePublic s e
     if r.2 then r.1 else releaseRequest r.1 e true
 
+/-- `HttpStateData::reusableReply` for an entry with (`rel`) or without `RELEASE_REQUEST`, given what the reply itself allows:
+"the entry has been released" ⇒ `doNotCacheButShare`, tested first (`relFirst`) or only when the reply is not `reuseNot` -/
+def reuseAnswer (relFirst rel : Bool) (r : Reuse) : Reuse :=
+  if relFirst then (if rel then Reuse.doNotCacheButShare else r)
+  else (if rel && r != Reuse.reuseNot then Reuse.doNotCacheButShare else r)
+
 /-- `Client::setFinalReply`: `haveParsedReplyHeaders` then `startWriting` -/
 def replyHeaders (O : Nat → Resp) (s : State) (e : Nat) : State :=
   match s.entries e with
@@ -296,11 +305,10 @@ def replyHeaders (O : Nat → Resp) (s : State) (e : Nat) : State :=
       match s1.entries e with
       | none => s1
       | some ent1 =>
-        -- `reusableReply` starts with: RELEASE_REQUEST ⇒ doNotCacheButShare
-        let s2 := applyReuse s1 e (if ent1.relReq then Reuse.doNotCacheButShare else h.reuse)
+        let s2 := applyReuse s1 e (reuseAnswer s.relFirst ent1.relReq h.reuse)
         match s2.entries e with
         | none => s2
-        | some ent2 => setE s2 e { ent2 with hdr := some h, reqColl := false, relAtHdr := ent1.relReq }
+        | some ent2 => setE s2 e { ent2 with hdr := some h, reqColl := false, relAtHdr := s.relFirst && ent1.relReq }
 
 /-- up to `k` more body bytes arrive from the origin and are appended (`truncateVirginBody`: never beyond Content-Length) -/
 def replyData (O : Nat → Resp) (s : State) (e k : Nat) : State :=
